@@ -56,6 +56,5 @@ def check(tier, seed):
 
 
 def replay(path):
-    v = json.load(open(path))
-    print(json.dumps(v, indent=1))
-    return 0
+    import generic as G
+    return G.generic_replay(PID, path)
